@@ -3,6 +3,7 @@ package props
 // C05 — VarInt / VarLong: minimal LEB128 bijection, exact Len(), bounded decode.
 
 import (
+	"bufio"
 	"bytes"
 	"fmt"
 	"io"
@@ -378,3 +379,162 @@ var c05Dec = pbt.Register(pbt.Prop[C05Dec]{
 })
 
 func TestC05Decode(t *testing.T) { pbt.Run(t, c05Dec) }
+
+// ---- several values from one stream, through readers of different TYPES -------------------------------------
+//
+// One reader delivers a concatenation of VarInt/VarLong encodings; the values are decoded one after another.
+// The reader is one of: the harness readers (with/without ReadByte, planned fragment sizes, idle reads, last byte
+// together with io.EOF), *bytes.Reader, *bytes.Buffer, *strings.Reader, and a *bufio.Reader (16-byte buffer) on
+// top of a fragmenting source - so that a buffered segment ends inside a value. Afterwards one more value is
+// decoded from a fresh, healthy reader (state left behind by the stream must not leak into it).
+
+type C05Stream struct {
+	Vals   []int64 `json:"vals"`
+	Long   []bool  `json:"long"`   // per value: VarLong (else VarInt, value truncated to int32)
+	Reader int     `json:"reader"` // 0 ByteSrc 1 Plain 2 bytes.Reader 3 bytes.Buffer 4 bufio over Src 5 strings.Reader 6 bufio over Plain
+	Plan   []int   `json:"plan,omitempty"`
+	Idle   int     `json:"idle,omitempty"`
+	EOF    bool    `json:"eof_with_data,omitempty"`
+}
+
+func c05CheckStream(c C05Stream) *pbt.Violation {
+	var data []byte
+	var encs [][]byte
+	for i, v := range c.Vals {
+		var e []byte
+		if c.Long[i] {
+			e = leb.Encode(uint64(v), 64)
+		} else {
+			e = leb.Encode(uint64(uint32(int32(v))), 32)
+		}
+		encs = append(encs, e)
+		data = append(data, e...)
+	}
+	total := len(data)
+	withSentinel := !c.EOF
+	if withSentinel {
+		data = append(data, c05Sentinel)
+	}
+	var r io.Reader
+	var consumed func() int
+	mk := func() *iox.Src {
+		s := iox.NewSrc(data)
+		s.Plan = c.Plan
+		s.EOFWithData = c.EOF
+		return s
+	}
+	kind := ""
+	switch c.Reader {
+	case 0:
+		s := mk()
+		r, consumed, kind = iox.ByteSrc{Src: s}, func() int { return s.Pos }, "harness ByteReader"
+	case 1:
+		s := mk()
+		s.Idle = c.Idle
+		r, consumed, kind = iox.Plain{R: s}, func() int { return s.Pos }, "harness plain Reader"
+	case 4, 6:
+		s := mk()
+		var under io.Reader = s
+		if c.Reader == 6 {
+			under = iox.Plain{R: s}
+		}
+		br := bufio.NewReaderSize(under, 16)
+		r, consumed, kind = br, func() int { return s.Pos - br.Buffered() }, "*bufio.Reader over a fragmenting source"
+	default:
+		d := iox.NewDelivery(c.Reader, data)
+		r, consumed, kind = d.R, d.Consumed, d.Kind
+	}
+	pos := 0
+	for i, e := range encs {
+		var got int64
+		var n int64
+		var err error
+		pv, stack := pbt.Try(func() {
+			if c.Long[i] {
+				v := pk.VarLong(^c.Vals[i])
+				n, err = v.ReadFrom(r)
+				got = int64(v)
+			} else {
+				v := pk.VarInt(^int32(c.Vals[i]))
+				n, err = v.ReadFrom(r)
+				got = int64(v)
+			}
+		})
+		if pv != nil {
+			return pbt.V(pbt.PanicKey("c05.stream", stack), "no panic", "value #%d of % x through %s: panic %v\n%s", i, data, kind, pv, stack)
+		}
+		want := c.Vals[i]
+		if !c.Long[i] {
+			want = int64(int32(c.Vals[i]))
+		}
+		pos += len(e)
+		last := i == len(encs)-1
+		if err != nil && !(last && c.EOF && err == io.EOF && got == want && n == int64(len(e))) {
+			return pbt.V("c05.stream.error", "decoding those bytes returns the original value", "value #%d (% x) of stream % x through %s (plan %v): error %v", i, e, data, kind, c.Plan, err)
+		}
+		if got != want || n != int64(len(e)) {
+			return pbt.V("c05.stream.value", "decoding returns the original value and reports exactly the bytes consumed",
+				"value #%d (% x) of stream % x through %s (plan %v): got %d n=%d, want %d n=%d", i, e, data, kind, c.Plan, got, n, want, len(e))
+		}
+		if cs := consumed(); cs != pos {
+			return pbt.V("c05.stream.consumed", "without touching the rest of the stream",
+				"after value #%d of stream % x through %s (plan %v): %d bytes taken from the reader, the values so far occupy %d", i, data, kind, c.Plan, cs, pos)
+		}
+	}
+	if withSentinel {
+		var one [1]byte
+		if _, err := io.ReadFull(r, one[:]); err != nil || one[0] != c05Sentinel || consumed() != total+1 {
+			return pbt.V("c05.stream.rest", "without touching the rest of the stream", "after the last value of % x through %s the next byte is % x (err %v)", data, kind, one[0], err)
+		}
+	}
+	// nothing of this stream may be left behind in the package
+	for _, long := range []bool{false, true} {
+		fresh := iox.Plain{R: iox.NewSrc([]byte{0xdd, 0xc7, 0x01, c05Sentinel})}
+		var got, n int64
+		var err error
+		if long {
+			v := pk.VarLong(7)
+			n, err = v.ReadFrom(fresh)
+			got = int64(v)
+		} else {
+			v := pk.VarInt(7)
+			n, err = v.ReadFrom(fresh)
+			got = int64(v)
+		}
+		if err != nil || got != 25565 || n != 3 {
+			return pbt.V("c05.stream.leak", "decoding returns the original value (independent of earlier decodes on other streams)",
+				"after reading stream % x through %s (last byte with EOF: %v), a fresh reader holding dd c7 01 decodes (long=%v) to %d n=%d err=%v", data, kind, c.EOF, long, got, n, err)
+		}
+	}
+	return nil
+}
+
+var c05Stream = pbt.Register(pbt.Prop[C05Stream]{
+	Name: "C05Stream",
+	Gen: func(t *rapid.T) C05Stream {
+		n := rapid.IntRange(1, 12).Draw(t, "n")
+		c := C05Stream{Reader: rapid.IntRange(0, 6).Draw(t, "reader")}
+		g := rapid.OneOf(genBoundary64(), rapid.Int64(), rapid.Int64Range(-3, 300))
+		for i := 0; i < n; i++ {
+			c.Vals = append(c.Vals, g.Draw(t, "v"))
+			c.Long = append(c.Long, rapid.Bool().Draw(t, "long"))
+		}
+		if c.Reader == 0 || c.Reader == 1 || c.Reader == 4 || c.Reader == 6 {
+			if rapid.IntRange(0, 3).Draw(t, "planned") > 0 {
+				c.Plan = rapid.SliceOfN(rapid.IntRange(1, 9), 1, 12).Draw(t, "plan")
+			}
+			c.EOF = rapid.IntRange(0, 3).Draw(t, "eof") == 0
+		}
+		if c.Reader == 1 {
+			c.Idle = rapid.SampledFrom([]int{0, 0, 2, 3, 5}).Draw(t, "idle")
+		}
+		return c
+	},
+	Check: c05CheckStream,
+	Classify: func(c C05Stream) (bool, []string, []byte) {
+		return len(c.Vals) >= 2, []string{fmt.Sprintf("stream_reader_%d", c.Reader)}, nil
+	},
+	Quick: 120000, Thorough: 3000000,
+})
+
+func TestC05Stream(t *testing.T) { pbt.Run(t, c05Stream) }
